@@ -722,9 +722,9 @@ func TestC05Verify(t *testing.T) {
 	for _, s := range edwards.Schemes {
 		s := s
 		t.Run(s.Name, func(t *testing.T) {
-			n := vlib.N(330, 2000)
+			n := vlib.N(330, 1500)
 			if !is25519(s) {
-				n = vlib.N(300, 1600)
+				n = vlib.N(300, 1000)
 			}
 			vlib.Check(t, n, func(t *rapid.T) { verifyCase(t, s) })
 		})
